@@ -4,6 +4,9 @@
 (* the invariant PrintHist, which TLC evaluates on the states of the sampled behaviour only).      *)
 EXTENDS ProxiedCircuit, Json
 CONSTANTS Depth, SampleOneIn
+DispsCore == {"fwd", "drop", "take"}
+DispsAll == {"fwd", "drop", "take", "droptake", "fwdtake"}
+DispsTakes == {"fwd", "take", "droptake", "fwdtake"}
 VARIABLE hist
 St == [epSent |-> epSent, epRel |-> epRel, epDropped |-> epDropped, inj |-> inj, base |-> base,
        delivered |-> delivered, pending |-> pending, done |-> done, quiet |-> quiet]
@@ -11,7 +14,7 @@ Full == [st |-> St, g |-> [fwdMap |-> fwdMap, ackedWire |-> ackedWire, shown |->
 ObsNext == [out |-> out', pending |-> pending', done |-> done']
 Labelled(E(_)) ==
     /\ TLCGet("level") < Depth
-    /\ \/ \E d \in D, k \in MinEp..MaxEp, rel \in BOOLEAN, kind \in {"msg", "pa"}, disp \in {"fwd", "drop", "take"} :
+    /\ \/ \E d \in D, k \in MinEp..MaxEp, rel \in BOOLEAN, kind \in {"msg", "pa"}, disp \in Disps :
              \E A \in AckChoices(d, MaxAcks) :
                 \E n \in 0..Len(A) :
                     /\ EndpointSend(d, k, rel, kind, SubSeq(A, 1, n), SubSeq(A, n + 1, Len(A)), disp)
